@@ -132,6 +132,8 @@ def classes_of(api):
         return ['ok', 'diff', 'big', 'badname', 'N', 'new']
     if api == 'del_att':
         return ['ok', 'notatt', 'N', 'diff']
+    if api == 'copy_att':
+        return ['ok', 'diff', 'notatt', 'N']
     if api == 'def_dim':
         return ['ok', 'diffname', 'diffsize', 'badname', 'inuse', 'neg']
     if api == 'def_var':
@@ -280,6 +282,8 @@ META = {
                     N=(0, 'NC_ENOTVAR', 0, ('units', 99, 2, 4, 'wxyz')), new=(0, 0, 'NC_ENOTINDEFINE', ('fresh', 0, 2, 4, 'wxyz'))),
     'del_att': dict(ok=(0, 0, 0, ('units', 0)), notatt=(0, 0, 'NC_ENOTATT', ('nosuch', 0)), N=('NC_ENOTVAR', 0, 0, ('units', 99)),
                     diff=(0, 0, 0, ('title', -1))),
+    'copy_att': dict(ok=(0, 0, 0, ('units', (0, 5))), diff=(0, 0, 0, ('units', (0, 1))), notatt=(0, 0, 'NC_ENOTATT', ('nosuch', (0, 5))),
+                     N=(0, 'NC_ENOTVAR', 0, ('units', (99, 5)))),
     'def_dim': dict(ok=(0, 0, 0, ('nd', 5)), diffname=(0, 0, 0, ('ne', 5)), diffsize=(0, 0, 0, ('nd', 6)),
                     badname=(0, 'NC_EBADNAME', 0, ('', 5)), inuse=(0, 'NC_ENAMEINUSE', 0, ('x', 5)), neg=(0, 'NC_EDIMSIZE', 0, ('nd', -3))),
     'def_var': dict(ok=(0, 0, 0, ('nv', 4, 1, 'x')), diffname=(0, 0, 0, ('nw', 4, 1, 'x')), difftype=(0, 0, 0, ('nv', 5, 1, 'x')),
@@ -289,7 +293,7 @@ META = {
     'def_var_fill': dict(ok=(0, 0, 0, ((0, 0, 0), 9)), diffval=(0, 0, 0, ((0, 0, 0), 8)), diffmode=(0, 0, 0, ((0, 1, 0), 9)),
                          diffvar=(0, 0, 0, ((5, 0, 0), 9)), N=(0, 'NC_ENOTVAR', 0, ((99, 0, 0), 9))),
     '_enddef': dict(ok=(0, 0, 0, ((0, 0, 0, 0),)), neg=(0, 'NC_EINVAL', 0, ((-1, 0, 0, 0),)), diff=(0, 0, 0, ((0, 1024, 0, 0),))),
-    'create': dict(c5=(0, 0, 0, (5,)), c2=(0, 0, 0, (2,))),
+    'create': dict(c5=(0, 0, 0, (5,)), c2=(0, 0, 0, (2,)), nc=(0, 0, 0, (6,))),
     'open': dict(w=(0, 0, 0, (1,)), r=(0, 0, 0, (0,))),
 }
 # code raised for the first compared attribute that differs from rank 0's
@@ -299,6 +303,7 @@ META_CMP = {
     'rename_att': ['NC_EMULTIDEFINE_ATTR_NAME', 'NC_EMULTIDEFINE_ATTR_NAME', 'NC_EMULTIDEFINE_FNC_ARGS'],
     'put_att': ['NC_EMULTIDEFINE_ATTR_NAME', 'NC_EMULTIDEFINE_FNC_ARGS', 'NC_EMULTIDEFINE_ATTR_TYPE', 'NC_EMULTIDEFINE_ATTR_LEN', 'NC_EMULTIDEFINE_ATTR_VAL'],
     'del_att': ['NC_EMULTIDEFINE_ATTR_NAME', 'NC_EMULTIDEFINE_FNC_ARGS'],
+    'copy_att': ['NC_EMULTIDEFINE_ATTR_NAME', 'NC_EMULTIDEFINE_FNC_ARGS'],
     'def_dim': ['NC_EMULTIDEFINE_DIM_NAME', 'NC_EMULTIDEFINE_DIM_SIZE'],
     'def_var': ['NC_EMULTIDEFINE_VAR_NAME', 'NC_EMULTIDEFINE_VAR_TYPE', 'NC_EMULTIDEFINE_VAR_NDIMS', 'NC_EMULTIDEFINE_VAR_DIMIDS'],
     'set_fill': ['NC_EMULTIDEFINE_FILL_MODE'],
@@ -308,7 +313,7 @@ META_CMP = {
     'open': ['NC_EMULTIDEFINE_OMODE'],
 }
 META_API = {'rename_var': 'A_meta M_rename_var', 'rename_dim': 'A_meta M_rename_dim', 'rename_att': 'A_meta M_rename_att',
-            'put_att': 'A_meta M_put_att', 'del_att': 'A_meta M_del_att', 'def_dim': 'A_meta M_def_dim', 'def_var': 'A_meta M_def_var',
+            'put_att': 'A_meta M_put_att', 'del_att': 'A_meta M_del_att', 'copy_att': 'A_meta M_copy_att', 'def_dim': 'A_meta M_def_dim', 'def_var': 'A_meta M_def_var',
             'set_fill': 'A_meta M_set_fill', 'def_var_fill': 'A_meta M_def_var_fill', '_enddef': 'A__enddef', 'create': 'A_create', 'open': 'A_open'}
 
 
@@ -327,6 +332,8 @@ def abs_meta(c, rank, E):
     own = e[0] or e[1] or e[3]
     if c.api in ('create', 'open') and not own:
         own = e[2]                     # the mode is compared with rank 0's in every configuration
+        if c.api == 'create' and c.pre == 'closed' and c.cls[0] == 'nc':
+            own = own or E['NC_EEXIST']     # root asks for NC_NOCLOBBER and the file exists: every rank gets NC_EEXIST
     term = 'LMeta (mkM %s %s %s %s)' % tuple(zc(x) for x in e)
     return Abs(term, own == 0, own, label=cls)
 
@@ -392,10 +399,10 @@ def coq_shared(c, info):
     """the shared state the harness prepares (harness/c08_trace.c: setup_file / prepare)"""
     pre = c.pre
     mode = {'': 'MColl', 'data': 'MColl', 'indep': 'MIndep', 'indep_put': 'MIndep', 'redef': 'MDefine', 'redef_grow': 'MDefine',
-            'redef_addrec': 'MDefine', 'redef_addfix': 'MDefine', 'new': 'MDefine', 'closed': 'MColl', 'none': 'MDefine'}[pre]
-    isnew = pre in ('new', 'none')
-    nvars = {'none': 0, 'redef_addrec': 7, 'redef_addfix': 7}.get(pre, 6)
-    nrec = {'none': 0, 'redef_addrec': 3}.get(pre, 2)
+            'redef_addrec': 'MDefine', 'redef_addfix': 'MDefine', 'new': 'MDefine', 'closed': 'MColl', 'none': 'MDefine', 'empty': 'MDefine'}[pre]
+    isnew = pre in ('new', 'none', 'empty')
+    nvars = {'none': 0, 'empty': 0, 'redef_addrec': 7, 'redef_addfix': 7}.get(pre, 6)
+    nrec = {'none': 0, 'empty': 0, 'redef_addrec': 3}.get(pre, 2)
     if c.api == 'create':
         nvars, nrec = 0, 0
     numrecs = 0 if isnew else 2
@@ -416,8 +423,10 @@ def coq_shared(c, info):
         recs = [o for r, o, l in i['varlist'] if r]
         return min(recs) if recs else 0
     argflag = c.api == 'def_var_fill' and c.cls[0] in ('ok', 'diffval', 'diffvar')
-    return ('(mkSh %s false %s %d %d %d %s 1 %s false false %s %s %s %d %d %d %d %d %d)' %
-            (mode, b(isnew), nvars, nrec, numrecs, b(indep_open), b(fill_new), b(argflag), lay(old), lay(new),
+    noclobber = c.api == 'create' and c.cls[0] == 'nc'
+    exists = noclobber and pre == 'closed'
+    return ('(mkSh %s false %s %d %d %d %s 1 %s %s %s %s %s %s %d %d %d %d %d %d)' %
+            (mode, b(isnew), nvars, nrec, numrecs, b(indep_open), b(fill_new), b(exists), b(noclobber), b(argflag), lay(old), lay(new),
              begin_var(old), begin_var(new), begin_rec(old), begin_rec(new), fld(old, 'recsize'), fld(new, 'recsize')))
 
 
@@ -575,6 +584,11 @@ def varn_path(cls):
     return 'scalar' if (v == 'S' and w != 'num0') else 'varn'
 
 
+def witness_order(c):
+    """smaller = better witness: fewer ranks, all ranks on the same variable, fewer distinct classes"""
+    return (c.np, len(set(x.split('.')[0] for x in c.cls if '.' in x)), len(set(c.cls)), c.text())
+
+
 def key_of(c, absl, what):
     """stable key of an oracle failure: API, kind of the variables the valid ranks address, kind of the invalid argument,
     configuration; independent of rank order, of the number of ranks and of which further classes are present"""
@@ -606,6 +620,8 @@ def key_of(c, absl, what):
         elif len(valid) > 1:
             b0 = 'arguments-differ:'
         return '%s:%s%s%s%s' % (api, b0, mode, cfgs, tail)
+    if what == 'crash' and any(x in bad for x in ('bad-varid', 'global-varid')):
+        bad = [x for x in bad if x in ('bad-varid', 'global-varid')]
     s = (bad[0] + '-on-one-rank') if bad else '+'.join(valid)
     if c.pre and c.pre not in ('data',):
         s += ':from-' + c.pre
@@ -771,7 +787,7 @@ def gen_cases(ctx):
             deviations(api, 3, classes_of(api)[0], aggr=1)
     # metadata calls in data mode / define mode, with and without safe mode and collective header I/O
     for api, pre in [('rename_var', ''), ('rename_dim', ''), ('rename_att', ''), ('put_att', ''), ('rename_var', 'indep'), ('put_att', 'indep'),
-                     ('rename_var', 'redef'), ('put_att', 'redef'), ('del_att', 'redef'), ('def_dim', 'redef'), ('def_var', 'redef'),
+                     ('rename_var', 'redef'), ('put_att', 'redef'), ('del_att', 'redef'), ('copy_att', 'redef'), ('def_dim', 'redef'), ('def_var', 'redef'),
                      ('set_fill', 'redef'), ('def_var_fill', 'new'), ('def_dim', 'new'), ('_enddef', 'redef'), ('_enddef', 'new'),
                      ('_enddef', 'redef_grow')]:
         for safe in (0, 1):
@@ -794,6 +810,14 @@ def gen_cases(ctx):
                     if thorough or (dup == 0 and hcoll == 0):
                         exhaustive(api, 3, pre=pre, safe=safe, dup=dup, hcoll=hcoll)
         exhaustive(api, 2, pre=pre, aggr=1)
+    for np in (2, 3):
+        for safe in (0, 1):
+            for dup in (0, 1):
+                add('create', ['nc'] * np, pre='none', safe=safe, dup=dup)      # NC_NOCLOBBER, new file
+                add('create', ['nc'] * np, pre='closed', safe=safe, dup=dup)    # NC_NOCLOBBER, file exists: NC_EEXIST everywhere
+                add('create', ['nc'] + ['c5'] * (np - 1), pre='none', safe=safe, dup=dup)
+                add('close', ['-'] * np, pre='empty', safe=safe, dup=dup)       # no variable: truncation barriers
+                add('enddef', ['-'] * np, pre='empty', safe=safe, dup=dup)
     # calls without per-rank arguments, from every mode; per-rank HISTORY differs (independent puts, pending requests)
     for np in (2, 3, 4):
         for safe in (0, 1):
@@ -856,7 +880,7 @@ def execute(ctx, exe, lib, cases, E, wd, sites, budget_s):
         groups.setdefault(k, []).append(c)
     singles = []
     for k in sorted(groups):
-        g = sorted(groups[k], key=lambda c: (c.np, len(set(c.cls)), c.text()))
+        g = sorted(groups[k], key=witness_order)
         take = g[:per_key]
         if ctx.tier == 'thorough':
             take = take + [c for c in g[per_key:] if c.np == 2][:6]
@@ -865,6 +889,7 @@ def execute(ctx, exe, lib, cases, E, wd, sites, budget_s):
     ctx.cov.setdefault('distribution_exec', {}).update(predicted_mismatch=len(bad), predicted_mismatch_keys=len(groups),
                                                       predicted_mismatch_replayed=len(singles))
     jobs = [(n, np, cs, 60 + len(cs), WATCHDOG_OK) for n, np, cs in batches] + [('s' + c.id, c.np, [c], 14 + 3 * WATCHDOG, WATCHDOG) for c in singles]
+    unexpected = {}      # batch chain -> number of unpredicted hangs so far
     def runjob(j):
         name, np, cs, to, wdog = j
         return j, run_batch(exe, cs, np, wd, name, to, wdog)
@@ -898,26 +923,32 @@ def execute(ctx, exe, lib, cases, E, wd, sites, budget_s):
                     else:
                         results[c.id] = (o, crash)
                     if rest:
-                        nxt.append((name + 'r', np, rest, 60 + len(rest), wdog))
+                        # a chain that keeps hanging (a regression, not a loaded machine) continues with the short watchdog;
+                        # every unpredicted hang is re-run alone with the long one below
+                        chain = name.rstrip('r')
+                        unexpected[chain] = unexpected.get(chain, 0) + 1
+                        nxt.append((name + 'r', np, rest, 60 + len(rest), wdog if unexpected[chain] < 3 else WATCHDOG + 1))
         pending = nxt
     # an unpredicted hang may be the watchdog firing on a loaded machine: re-run alone with a long watchdog
     def incomplete(c):
         o = results.get(c.id, ({}, None))[0]
         return len(o) < c.np or any(not x['end'] for x in o.values())
     suspects = [c for c in cases if c.id in results and incomplete(c) and not predicted_bad(c)]
-    confirmed = 0
-    for attempt in range(2):
-        if not suspects:
-            break
+    # at most 16 confirmations, one per key first (a regression can make hundreds of scenarios hang)
+    seen_k = set(); first = []; later = []
+    for c in sorted(suspects, key=lambda c: (c.np, len(set(c.cls)), c.text())):
+        k = key_of(c, [abstraction(c, r, E) for r in range(c.np)], 'hang')
+        (later if k in seen_k else first).append(c); seen_k.add(k)
+    chosen = (first + later)[:16]
+    still = 0
+    if chosen:
         with ThreadPoolExecutor(max_workers=4) as ex:
-            outs = list(ex.map(lambda c: (c, run_batch(exe, [c], c.np, wd, 'c%d%s' % (attempt, c.id), 30 + 4 * WATCHDOG_CONFIRM, WATCHDOG_CONFIRM)), suspects))
-        nxt = []
+            outs = list(ex.map(lambda c: (c, run_batch(exe, [c], c.np, wd, 'c' + c.id, 30 + 4 * WATCHDOG_CONFIRM, WATCHDOG_CONFIRM)), chosen))
         for c, (rc, obs, crash, tail) in outs:
             results[c.id] = (obs.get(c.id, {}), crash)
-            if incomplete(c):
-                nxt.append(c)
-        suspects = nxt
-    ctx.cov['distribution_exec']['unpredicted_hangs_confirmed_by_rerun'] = len(suspects)
+            still += incomplete(c)
+    ctx.cov['distribution_exec'].update(unpredicted_hangs=len(suspects), unpredicted_hangs_rerun_alone=len(chosen),
+                                        unpredicted_hangs_confirmed_by_rerun=still)
     ctx.cov['timing']['impl_s'] = round(time.time() - t0, 1)
     ctx.cov['distribution_exec']['infrastructure_retries'] = sum(retries.values())
     # layouts for the enddef-after-redef cases come from the implementation's own inquiries
@@ -984,13 +1015,14 @@ def report(ctx, res, E, sites):
             e = by_key.setdefault(k, dict(n=0, first=None))
             e['n'] += 1
             # keep the smallest witness (fewest ranks, fewest distinct classes)
-            cand = (c.np, len(set(c.cls)), c.text())
+            cand = witness_order(c)
             if e['first'] is None or cand < e['first'][0]:
                 e['first'] = (cand, c, orc, model)
         if cor:
             cor_fail.append((c, cor))
     dist['correspondence_failures'] = len(cor_fail)
     dist['violation_keys'] = len(by_key)
+    ctx.cov['violation_keys'] = sorted(by_key)
     ctx.cov['distribution'] = dist
     ctx.cov['traces_validated_against_impl'] = dist['cases']
     ctx.cov['rule'] = ('scenario = fixed file (harness/c08_trace.c setup_file) + ONE collective API call with one argument class per rank; '
@@ -1031,5 +1063,12 @@ def replay(ctx, d):
         print(' correspondence failures:', cor)
         if orc:
             absl = [abstraction(c, r, E) for r in range(c.np)]
-            ctx.violation('%s: %s' % (c.text(), orc[0][1]), dict(case=c.to_json(), oracle=[list(x) for x in orc]), key=key_of(c, absl, orc[0][0]))
-    return ctx.finish(ASSUMPTIONS)
+            k = key_of(c, absl, orc[0][0])
+            known = ctx.is_known(k)
+            print('REPRODUCED key=%s%s' % (k, ' (listed in known_findings.json)' if known else ''))
+            return 0 if known else 1
+        if cor:
+            print('REPRODUCED model/implementation disagreement %s' % cor[0][0])
+            return 1
+    print('NOT REPRODUCED')
+    return 0
